@@ -374,13 +374,19 @@ class Prop:
                          'no_lost_withdrawal_refuted_by_id_keying',
                          'quiescent_view_eq_fresh_refuted_truncated_dump',
                          'quiescent_view_eq_fresh_refuted_unreported_llgr',
-                         'no_lost_withdrawal_refuted_inline_refresh', 'eor_emission']
+                         'no_lost_withdrawal_refuted_inline_refresh', 'eor_emission',
+                         'pending_last_event_wins', 'flush_order']
     correspondence_name = ('Model/ExportTx.v step vs table::Table + event::export::process_nlri_change + '
                            'peer_tx::PendingTx (harness/daemon/export_c01_hx.rs)')
-    rule = ('cases = (neighbour role/address/send-max/add-path, source peers, export policy, schedule of table '
-            'operations, Deliver, Flush, Register, Refresh); a case is non-trivial when at least one route reaches '
-            'the mirror and at least one withdrawal is drained; distinct = distinct (configuration, sequence of '
-            'drained message sets)')
+    rule = ('cases = (neighbour role/address/send-max/add-path, source peers with roles, export policy, shard index, '
+            'schedule of table operations (insert, remove, peer drop, LLGR marking, next-hop flap, GR stale/purge), '
+            'Deliver, Flush, Register, Unregister, Refresh, PolicyChange); every run enumerates the directed classes '
+            '(class_* tags: window on both sides of send-max for every token assignment; every <=3-event coalescing '
+            'sequence from three initial states; 63/64/65/127/128/129 live destinations with ids freed at word '
+            'boundaries on three shard indices; 5x5 role matrix; replacement kinds at each rank; LLGR marking at each '
+            'rank; refresh/policy/race histories; next-hop flaps; session restarts; peer-down) and adds 1000 seeded '
+            'random schedules; a case is non-trivial when at least one route reaches the mirror and at least one '
+            'withdrawal is drained; distinct = distinct (configuration, sequence of drained message sets)')
     exhaustive = {'quick': False, 'thorough': False}   # thorough adds a complete depth-4 sweep of a 9-letter alphabet
     trusted_base = [
         'the RIB (table/src/lib.rs) is abstracted to its change stream: a RIB label is the NlriChange the table emits; the '
@@ -392,8 +398,9 @@ class Prop:
         'is abstracted to the set of (prefix, path id, payload) a message carries (property C04), and exercised for real by '
         'the session-level harness (PeerCodec::encode_to over a socket, independent try_parse/validate_message)',
         'one shard, one family, one observed neighbour; a lock section / channel send / handle_prefix_update / flush_tx is '
-        'one atomic step (std::sync::Mutex, mpsc and ArcSwap assumed sequentially consistent); socket errors, tokio '
-        'scheduling and policy changes during a session are not modelled',
+        'one atomic step (std::sync::Mutex, mpsc and ArcSwap assumed sequentially consistent); socket errors and tokio '
+        'scheduling are not modelled; a policy change during a session, RTC-triggered VPN re-advertisement and the '
+        'MP / legacy encoding choice are outside the theorems (policy change is exercised by the correspondence)',
         'addpath_tx = (effective_max > 1) is assumed (the FSM/codec agreement is property C16); the model and the '
         'correspondence cover the mismatch configuration, the theorems do not']
     assumptions = ['truthful change stream (Spec/ExportTxSpec.v truthful_run)',
